@@ -1216,6 +1216,7 @@ fn run_step_zones(c: &mut Ctx) {
 }
 
 pub fn run(c: &mut Ctx) {
+    crate::aliases::c14(c);
     let n = c.n(100_000, 1_000_000);
     for k in 0..n {
         let case = if k % 2 == 0 {
